@@ -42,7 +42,7 @@ pub fn tracegen_only(prop: &str, seed: u64, runs: usize, only: Option<usize>) ->
                 prop,
                 run,
                 s,
-                Knobs { bidir: true, p_c: 0.05, max_virtuals: 1, big_consts: true, ..Knobs::rows() },
+                Knobs { bidir: true, p_c: 0.05, max_virtuals: 1, big_consts: true, suffix_names: run % 4 == 0, ..Knobs::rows() },
                 Opt { layouts: LayoutMode::Subset, mode: ValMode::Wild, p_zx: 0.25, many_outputs_in_header: true, ..Opt::default() },
             ),
             "C04" => general_run(
@@ -72,17 +72,22 @@ pub fn tracegen_only(prop: &str, seed: u64, runs: usize, only: Option<usize>) ->
                 prop,
                 run,
                 s,
-                Knobs { max_virtuals: 4, bidir: true, p_c: 0.08, max_stmts: 14, ..Knobs::control_flow() },
+                Knobs { max_virtuals: 4, bidir: true, p_c: 0.08, max_stmts: 14, suffix_names: run % 3 == 0, ..Knobs::control_flow() },
                 Opt { layouts: LayoutMode::Subset, mode: ValMode::Wild, p_zx: 0.06, ..Opt::default() },
             ),
-            "C17" => general_run(
+            "C17" => {
+              crate::OS_ENTROPY.store(run % 2 == 1, std::sync::atomic::Ordering::Relaxed);
+              let v = general_run(
                 prop,
                 run,
                 s,
                 Knobs { allow_random: true, p_reset: if run % 4 == 1 { 0.2 } else { 0.12 }, big_consts: run % 3 == 0, max_virtuals: if run % 4 == 1 { 2 } else { 1 }, random_in_declares: run % 4 == 1, p_x: 0.05, p_c: 0.05, max_depth: 3, p_while: if run % 2 == 0 { 0.12 } else { 0.04 },
                         ..Knobs::control_flow() },
                 Opt::default(),
-            ),
+              );
+              crate::OS_ENTROPY.store(false, std::sync::atomic::Ordering::Relaxed);
+              v
+            }
             "C20" => {
                 // one program, three layouts: every variant must behave as the one specification instance says
                 let mut v = vec![];
@@ -472,7 +477,7 @@ fn width_run(prop: &str, run: usize, seed: u64) -> Vec<J> {
 
 fn expr_run(prop: &str, run: usize, seed: u64) -> Vec<J> {
     let vars: Vec<String> = ["a", "b", "c", "q", "r"].iter().map(|s| s.to_string()).collect();
-    let mut g = Gen::new(seed, Knobs { vars: vars.clone(), big_consts: true, allow_div: true, expr_depth: 4, p_device: 0.3, ..Knobs::control_flow() });
+    let mut g = Gen::new(seed, Knobs { vars: vars.clone(), big_consts: true, allow_div: true, expr_depth: 4, p_device: 0.3, allow_random: run % 3 == 0, ..Knobs::control_flow() });
     let supplied = vec![Sig::input("A", 64, Val::N(0)), Sig::output("q", 64), Sig::output("r", 64), Sig::output("a", 64), Sig::output("b", 64), Sig::output("c", 64)];
     let header: Vec<String> = ["A", "V"].iter().map(|s| s.to_string()).collect();
     let plan = Plan { header: header.clone(), supplied: supplied.clone(), col_is_input: vec![true, false], bit_pairs: vec![], virtuals: vec![], readable: vec!["q".into(), "r".into()] };
@@ -541,7 +546,12 @@ fn tree(g: &mut Gen, depth: usize, plan: &Plan) -> Expr {
         let cond = tree(g, depth - 1, plan);
         let good = tree(g, depth - 1, plan);
         if g.rng.gen_bool(0.4) {
-            let bad = Expr::bin("/", Expr::Num(1), Expr::Num(0));
+            // ... or it would draw a random number (a side effect instead of a failure: the draw log shows it)
+            let bad = if g.k.allow_random && g.rng.gen_bool(0.5) {
+                Expr::bin("+", Expr::call("random", vec![Expr::Num(g.rng.gen_range(2..100))]), Expr::Num(1))
+            } else {
+                Expr::bin("/", Expr::Num(1), Expr::Num(0))
+            };
             if g.rng.gen_bool(0.5) {
                 Expr::call("ite", vec![Expr::bin("|", cond, Expr::Num(1)), good, bad])
             } else {
